@@ -29,7 +29,7 @@ ASSUMPTIONS = [
     "payloads near the 32-bit maxima are only exercised through the prefix-object entry points (no 4 GiB transfers)",
 ]
 TRUSTED = ["translator tools/gen/lenp_kinds.py", "harness/h_streams.c + tools/lib/vf.py (return value, octets at the sink, prefix object, buffer marks, decoded payload, octets taken from the source)"]
-DESIGN_REF = "DESIGN.md section 8, C13"
+DESIGN_REF = "DESIGN.md section 0.2 (as built) and section 8, C13"
 TECHNIQUE = "Lean 4 proofs composing the C14/C15/C17 theorems (every encoder entry point emits prefix ++ designated octets; decoders return exactly the payload and consume exactly the frame for any source fragmentation) + regenerated kind table + differential correspondence"
 LEVEL_TEXT = ("Machine-checked proof over the Lean model of length-prefix.c (kind table regenerated from the source): each encoder entry point that "
               "succeeds has put exactly prefix(kind, len) ++ the designated octets into the sink and returns the total, for any sink driver "
